@@ -34,6 +34,9 @@ func run(seed int64, n int, dir string, _ []string) {
 	root := scratchRoot("c05", seed)
 	defer os.RemoveAll(root)
 
+	// corpus: the witness of known finding F41 (REPLACE with a repeated existing key) runs first, for every seed
+	dml.KnownReplaceWitness(g, o, root)
+
 	stmts := 0
 	for seq := 0; stmts < n; seq++ {
 		r := dml.NewSequence(g, o, root, seq, false, 400)
